@@ -8,7 +8,7 @@ from life import CORR_MODULE, CASE_TYPE, MODEL_FN, CORR_FILE, to_coq, distributi
 PROP = 'C03'
 SHARD = 200
 RULE = ('complete fault enumeration: every life-cycle hook / user function x every occurrence index reached in the fault-free run x scenario '
-        '(plain, pause/play, kill, outputs, wait/resume); listener faults; one fault per run; non-trivial = the fault actually fired; distinct = distinct case')
+        '(plain, pause/play, kill, outputs, wait/resume); listener faults; faults combined with listeners that react with control calls (sampled); one fault per run; non-trivial = the fault actually fired; distinct = distinct case')
 ASSUMPTIONS = ['one injected fault per run', 'the fault of a user hook is raised before the hook calls its super() implementation']
 
 PAUSE_PLAY_HOOKS = ('on_pausing', 'on_paused', 'on_playing')
@@ -42,6 +42,9 @@ def oracle(case, obs):
         return None
     if obs['final'] is None:
         return {'signature': 'constructor_raised', 'kind': str(obs.get('constructor_raised'))}
+    if life.pause_carried_out_after_play(tr) is not None:
+        # finding D29 (property C05): also the reason why a fault in on_pausing / on_paused is then reported to nobody
+        return {'signature': 'pause_carried_out_although_withdrawn', 'kind': 'D29', 'context': scenario(case)}
     if f:
         fired = fault_fired(case, obs)
     else:
@@ -58,7 +61,8 @@ def oracle(case, obs):
             or any(a == ['exn', ['user', FAULT]] for a in fin['actions'])
         if not reported:
             return {'signature': 'pause_play_hook_fault_not_reported', 'kind': point, 'context': scenario(case)}
-        if fin['state'] not in ('killed', 'finished'):
+        # still controllable: the closing play(); kill() of the schedule (when the schedule still has it) ended it, or something else did
+        if fin['state'] not in life.TERMINAL and ['ctl', ['kill', 'end']] in case['events']:
             return {'signature': 'not_controllable_after_pause_play_fault', 'kind': fin['state'], 'context': scenario(case)}
         return None
     # everything else: EXCEPTED with exactly that exception, closed, future raising it, stepping returned
@@ -73,10 +77,26 @@ def oracle(case, obs):
         return {'signature': 'excepted_but_not_closed', 'kind': point, 'context': scenario(case)}
     if fin['ready'] == 0 and fin['t0'] != 'done':
         return {'signature': 'stepping_did_not_return', 'kind': '%s:%s' % (point, fin['t0']), 'context': scenario(case)}
+    # one notification per entry of EXCEPTED (two entries when a listener had already failed the process and the termination
+    # hook of that EXCEPTED state is the one that raises)
     n = sum(1 for e in tr if e == ['listener', 'on_process_excepted'])
-    if n != 1:
+    if n != sum(1 for e in tr if e[0] == 'entered' and e[2] == 'excepted') or n < 1:
         return {'signature': 'excepted_listeners_not_told_once', 'kind': '%s:%d' % (point, n), 'context': scenario(case)}
     return None
+
+
+def terminated_before_fault(case, obs):
+    """the process had already terminated (by other means) when the faulty hook was called"""
+    f = case['fault']
+    seen, term = 0, False
+    for e in obs['trace']:
+        if e[0] == 'entered' and e[2] in life.TERMINAL:
+            term = True
+        if e == ['hook', f[0]]:
+            if seen == f[1]:
+                return term
+            seen += 1
+    return False
 
 
 def fired_while_live(case, obs):
@@ -169,8 +189,21 @@ def generate(tier, rng, around=None):
         for l, c in lcounts.items():
             for occ in range(c):
                 cases.append(dict(base, listeners=[[l, occ, ['raise', 'lfault']]], _kind='listener'))
-    return {'cases': cases, 'exhaustive': True,
-            'scope': '6 scenarios x every hook x every occurrence index (+1) of the fault-free run; every step function; failing callback at 6 boundaries; every listener notification'}
+        # a fault while listeners REACT to the life cycle with control calls of their own (kill / pause / play / fail made from inside a
+        # notification, i.e. re-entrantly, possibly from inside the transition in which the fault fires): listener notification x
+        # reaction x hook x occurrence.  This is the quantifier of the all-run theorems (LifeEsc / LifeExc); sampled per tier.
+        combos = [(l, lo, rc, h, ho)
+                  for l, c in sorted(lcounts.items()) for lo in range(c)
+                  for rc in (['kill', 'lk'], ['pause', None], ['play'], ['fail', 'lf'])
+                  for h, hc in sorted(counts.items()) for ho in range(hc)]
+        k = {'quick': 45, 'thorough': 700}.get(tier, 120)
+        if len(combos) > k:
+            combos = rng.sample(combos, k)
+        for (l, lo, rc, h, ho) in combos:
+            cases.append(dict(base, listeners=[[l, lo, rc]], fault=[h, ho, FAULT], _kind='hook', _scenario=name + '+reacting_listener'))
+    return {'cases': cases, 'exhaustive': False,
+            'scope': '8 scenarios x every hook x every occurrence index (+1) of the fault-free run; every step function; failing callback at 6 boundaries; '
+                     'every listener notification; sampled: fault x listener reacting with kill/pause/play/fail from inside a notification'}
 
 
 def shrink_candidates(case):
